@@ -322,6 +322,45 @@ func run(c *hc.Ctx) {
 		}
 	}
 
+	// 2b. recorded inputs of repaired sweep defects (corpus/C01/overlap-rootcause.md: A = event queue
+	//     order after Reverse, B = tolerance-square membership, C = first segment vertical): judged on
+	//     every run by the exact Lean specification; their kinds match no known finding
+	for _, rc := range [][3]string{
+		{"or", "M1 1L0 3L2 2z", "M0 0L2 1L3 3zM2 1L1 2L0 2z"},
+		{"and", "M1 3L3 1L2 1zM3 0L3 2L1 0z", "M0 3L3 1L3 0zM1 3L1 0L3 1z"},
+		{"xor", "M2 2L1 0L1 1z", "M0 2L3 0L3 3zM1 0L1 1L3 1z"},
+		{"not", "M1 1L0 3L2 2zM0 0L3 3L2 1z", "M2 1L1 2L0 2z"},
+		{"or", "M0 3L2 2L0 0zM1 2L2 0L0 2z", "M3 1L1 0L3 2zM1 2L2 0L0 0z"},
+		{"and", "M2 0L1 2L0 3zM0 1L2 2L0 3z", "M2 3L0 2L1 1zM0 3L1 3L0 1z"},
+		{"not", "M0 2L2 0L2 2zM1 1L2 1L3 0z", "M2 1L1 1L2 0zM0 3L2 2L1 0z"},
+	} {
+		op := rc[0]
+		P, Q := canvas.MustParseSVGPath(rc[1]), canvas.MustParseSVGPath(rc[2])
+		cp, _ := hc.Contours(P)
+		cq, _ := hc.Contours(Q)
+		c.Evals++
+		var R *canvas.Path
+		if msg := hc.Try(func() { R = apply(op, P.Copy(), Q.Copy()) }); msg != "" {
+			first := strings.SplitN(msg, "\n", 2)[0]
+			c.Fail("panic:"+op+":"+first+"+recorded-sweep-input", op+" panicked: "+first, map[string]any{"op": op, "P": rc[1], "Q": rc[2]})
+			continue
+		}
+		cr, ok := hc.Contours(R)
+		if !ok {
+			c.Fail("result-not-flat:"+op+"+recorded-sweep-input", "result is not a flat well-formed path", map[string]any{"op": op, "P": rc[1], "Q": rc[2], "R": R.String()})
+			continue
+		}
+		var pts []hc.P2
+		for x := -0.37; x < 3.5; x += 0.2113 {
+			for y := -0.41; y < 3.5; y += 0.1931 {
+				pts = append(pts, hc.P2{X: x, Y: y})
+			}
+		}
+		line := fmt.Sprintf("REGION bool %s %s P %s Q %s R %s PTS %s", op, hc.H(delta), hc.PolyTokens(cp), hc.PolyTokens(cq), hc.PolyTokens(cr), hc.PtsTokens(pts))
+		c.Case(line, "!", "region:"+op+" +recorded-sweep-input")
+		c.Count("recorded-sweep-input")
+	}
+
 	// 3. bulk class: one or two non-degenerate triangles per operand on a 4x4 integer grid. Shared
 	//    edges, vertices on edges and crossings at inexact points are the rule here, every call is
 	//    cheap, and the library handles the whole class correctly (no recorded defect applies: the
